@@ -12,6 +12,7 @@ pub mod alloc;
 pub mod bfs;
 pub mod bigdec;
 pub mod choice;
+pub mod cputime;
 pub mod par;
 pub mod report;
 pub mod source;
